@@ -8,7 +8,7 @@ side-effect-free stub with the same signature.  The real function is instrumente
 """
 import functools
 from ksym.core import Ctx, And, Or, Not, ArgSort, PathPruned, Inconclusive
-from harness.keys import POS, KWO, XKW, shape_name, quick_shapes, all_shapes
+from harness.keys import POS, KWO, XKW, shape_name, quick_shapes, all_shapes, thorough_shapes
 
 
 def make_pair(sh, kind, log):
